@@ -16,6 +16,8 @@ for d in sorted(glob.glob(os.path.join(VERIF, "seeded", "*"))):
         det.append(f"{k}: {how}")
     for k, v in sorted(m.get("also_detected_by", {}).items()):
         det.append(f"{k}: {v}")
+    if m.get("obsolete"):
+        det.append("OBSOLETE: " + m["obsolete"][:120])
     clean = lambda s: re.sub(r"\s+", " ", s).replace("|", "/")  # noqa: E731
     rows.append(f"| {m['id']} | {clean(m['summary'])[:160]} | {clean(m['needs'])[:170]} | {'; '.join(det)} |")
 table = ("| id | change | needs, to manifest | caught by (quick tier) |\n|----|--------|--------------------|------------------------|\n" + "\n".join(rows) + "\n")
